@@ -37,6 +37,10 @@ func main() {
 		cmdPersist(os.Args[2:])
 	case "conc":
 		cmdConc(os.Args[2:])
+	case "excl":
+		cmdExcl(os.Args[2:])
+	case "stress":
+		cmdStress(os.Args[2:])
 	default:
 		die(2, "unknown driver %q", os.Args[1])
 	}
